@@ -3,7 +3,7 @@ HOOKS = {
     "guard": "cargo feature verif-hooks (crate vaporetto)",
     "enable": "the harness depends on /repo/vaporetto with features [train, kytea, verif-hooks]",
     "baseline_off_cmd": "cd /repo && cargo test --workspace --no-fail-fast --offline",
-    "source_commits": [],
+    "source_commits": ["7bcbc2a verif-hooks: cargo feature with observation points for the trainer (guard off by default)"],
     "add_only": True,
 }
 ENGINES = [
@@ -47,8 +47,23 @@ CHECKS = {
     "C15": dict(level="model_checking", ref="DESIGN.md §5 C15",
                 text="VpFilters (incl. UAX#29 rules transcribed over character classes) is the oracle for every sentence up to the bound x every label vector x every filter, each applied twice",
                 note=TB + "; GB9c (Indic conjuncts) outside the generated alphabets", technique=TECH),
+    "C09": dict(level="model_checking", ref="DESIGN.md §5 C09",
+                text="real liblinear runs; the learner's quantised output is read through the verif-hooks and Trace_Train recomputes every boundary score of every evaluation text from VpTrainer!FeatureBag; stored vector layouts checked against each kind's own window",
+                note=TB + "; the learner is an unconstrained function bound by the hooks; windows/n in 1..3", technique=TECH),
+    "C10": dict(level="model_checking", ref="DESIGN.md §5 C10",
+                text="VpTrainer!Examples is the oracle for every sentence up to the bound x every label vector x the configuration family; the real Trainer's stored examples are read back through the hook accessor and compared as multisets",
+                note=TB + "; sentences up to 3 characters over {a, あ, 1}", technique=TECH),
+    "C11": dict(level="exploration", ref="DESIGN.md §5 C11",
+                text="sweep over sizes 0..3 x 8 solvers x 10 corpus classes x dictionary; each pipeline run is one event validated against the pipeline life-cycle of Trace_Train (model or error, never panic; every later stage ok; weights in i16)",
+                note=TB + "; quick = must-run list + seeded sample; liblinear trusted", technique=TECH),
+    "C12": dict(level="model_checking", ref="DESIGN.md §5 C12",
+                text="Gen_Inventory (TLC, spec readers) gives the expected inventory of each corpus; real training; Trace_Train checks inventories as sets, vector sizes, prediction consequences and candidate scores = learned classifier on VpTrainer!TagFeatures",
+                note=TB + "; corpora = subsets of a sentence pool", technique=TECH),
+    "C16": dict(level="model_checking", ref="DESIGN.md §5 C16",
+                text="normaliser observed on all 1,112,064 scalars, laws checked by Trace_C16; Tantivy token streams: enumerated cases with expected streams from VpTantivy, random streams must tile the text and break where the library pipeline breaks",
+                note=TB + "; the normaliser table is observed, not pinned; NUL through Tantivy not judged", technique=TECH),
 }
 NOT_APPLICABLE = [
     {"property_id": p, "reason": "check under construction in this session (see DESIGN.md §13 build order); not claimed yet"}
-    for p in ["C09", "C10", "C11", "C12", "C16", "C17", "C18", "C19", "C20"]
+    for p in ["C17", "C18", "C19", "C20"]
 ]
